@@ -3,7 +3,7 @@
    moved one: the resulting file systems are equal up to the order of directory entries ([fsys_heq], HeapEq.v). *)
 From Coq Require Import Permutation.
 From Avfs Require Import Base BaseProofs PathModel PathSpec PathProofs PathCleanProofs PathIterProofs.
-From Avfs Require Import MemFS MemFile World Posix Inv WalkBridge WalkSym WalkBudget WalkReadlink WalkRel StepEq HeapEq.
+From Avfs Require Import MemFS MemFile World Posix Inv WalkBridge WalkSym WalkBudget WalkReadlink WalkRel StepEq HeapEq DacLemmas.
 
 (* a node that is not a directory is nobody's ancestor *)
 Lemma parent_of_dir_or_self (h : heap) (root d : nat) :
@@ -76,7 +76,8 @@ Proof.
     assert (Hvo : get (f_heap s) op <> None) by (apply node_is_dir_valid; exact Fo2).
     assert (Hvn : get (f_heap s) np <> None) by (apply node_is_dir_valid; exact Fn2).
     rewrite O1, N1, O5, O2, N5, OV1, NV1, N2. cbn [is_file_exists is_not_exist negb andb orb].
-    rewrite !(admin_perm_on s sv _ _ H) by assumption. cbn [negb andb]. rewrite andb_false_r.
+    rewrite !(admin_perm_on s sv _ _ H) by assumption. rewrite !(sticky_admin _ _ _ _ (sh_admin _ _ H)).
+    cbn [negb andb]. rewrite !andb_false_r.
     assert (Hpdiff : str_eqb (pi_path (sr_pi ro)) (pi_path (sr_pi rn)) = false).
     { apply str_eqb_neq. rewrite OP, NP. intros E.
       apply abs_path_inj in E; [|apply Forall_comp_ok_of; exact OG|apply Forall_comp_ok_of; exact NG].
